@@ -393,9 +393,19 @@ class State:
             return
         goal = self.cond(goal)
         g = smt.simp(goal)
+        top_ = self.cfg.get("contract")
+        if top_ is not None and getattr(top_, "abstract_callees", False) and kind != "termination":
+            # termination view: only the measure obligations are generated; everything else about this function is the business
+            # of its other contracts.  The condition is assumed, as it would be after a successful check.
+            if not z3.is_true(g):
+                self.pc.append(g)
+                self.sadd(g)
+            return
         name = f"{self.fuc_name}.{kind}.{label}"
         ob = Obligation(name, kind, label, list(self.pc), g, line, self.fuc_name, self.path_id)
         self.obligations.append(ob)
+        if kind == "termination":
+            return  # a measure obligation says nothing about the state: nothing to assume afterwards
         if not z3.is_true(g):
             self.pc.append(g)  # assert-then-assume
             self.sadd(g)
@@ -1368,6 +1378,13 @@ class Interp:
             from .lib import in_net_term
             r = smt.rid(cont.t)
             return in_net_term(st, smt.ipval(item.t), smt.ipval(st.getf(r, "net:address")), smt.ipval(st.getf(r, "net:netmask")))
+        if k == "obj":
+            m = T.strip_opt(cont.ty).a[0].find_method("__contains__")
+            if m is not None:
+                if cont.ty.k == "opt":
+                    st.oblige("safety", "none_deref.__contains__", z3.Not(smt.is_none(cont.t)), 0)
+                res = self.call_function(m, SV(cont.t, T.strip_opt(cont.ty), cont.c), [item], {}, Frame(m.module, m.cls), None)
+                return self.truthy(res)
         raise Refuse(f"`in` on value of type {cont.ty}")
 
     def ev_NamedExpr(self, node, fr):
